@@ -51,7 +51,7 @@ class Runner:
                 pass
             self.p = None
 
-    def run(self, job, timeout=60.0):
+    def run(self, job, timeout=15.0):
         """returns the reply dict, or {'fatal': 'abort(sig)'|'hang'}"""
         if self.p is None or self.p.poll() is not None:
             self.stop()
@@ -63,13 +63,19 @@ class Runner:
         except BrokenPipeError:
             self.stop()
             return {'fatal': 'abort(pipe)'}
+        # the timeout applies to each step (the runner reports the step in flight), not to the whole job
         deadline = time.time() + timeout
         fd = self.p.stdout.fileno()
+        at = None
         while True:
             nl = self.buf.find(b'\n')
             if nl >= 0:
                 line = self.buf[:nl]
                 self.buf = self.buf[nl + 1:]
+                if line.startswith(b'#'):
+                    at = int(line[1:])
+                    deadline = time.time() + timeout
+                    continue
                 try:
                     return json.loads(line)
                 except Exception as e:
@@ -77,14 +83,14 @@ class Runner:
             remaining = deadline - time.time()
             if remaining <= 0:
                 self.stop()
-                return {'fatal': 'hang'}
+                return {'fatal': 'hang', 'at': at}
             r, _, _ = select.select([fd], [], [], min(remaining, 1.0))
             if r:
                 chunk = os.read(fd, 1 << 20)
                 if not chunk:
                     rc = self.p.wait()
                     self.stop()
-                    return {'fatal': 'abort(%s)' % (-rc if rc < 0 else 'exit%d' % rc)}
+                    return {'fatal': 'abort(%s)' % (-rc if rc < 0 else 'exit%d' % rc), 'at': at}
                 self.buf += chunk
 
 
@@ -98,7 +104,7 @@ def runner():
     return _RUNNER
 
 
-def run_job(job, timeout=60.0):
+def run_job(job, timeout=15.0):
     return runner().run(job, timeout)
 
 
@@ -393,7 +399,7 @@ def unit_mode(src):
     return 'get'
 
 
-def run_units(units, prelude=(), limits=None, perms=None, dump=None, now=None, timeout=60.0, _depth=0):
+def run_units(units, prelude=(), limits=None, perms=None, dump=None, now=None, timeout=15.0, _depth=0):
     """Execute independent units in one job; isolate crashes by bisection.  Returns one Outcome per unit.
     A unit that fails to compile yields CErr; a compiler panic or a process death yields Panic/Fatal for
     that unit and the remaining units are re-run in a fresh job."""
@@ -412,6 +418,20 @@ def run_units(units, prelude=(), limits=None, perms=None, dump=None, now=None, t
                 return [Outcome(Fatal(rep2['fatal']), raw=job)]
             rep = rep2
         else:
+            at = rep.get('at')
+            np0 = len(prelude)
+            culprit = None
+            if at is not None:
+                if np0 <= at < np0 + n:
+                    culprit = at - np0
+                elif at > np0 + n:
+                    culprit = at - (np0 + n + 1)
+            if culprit is not None and 0 <= culprit < n:
+                # the step in flight is known: judge that unit alone, run the others without it
+                first = run_units(units[:culprit], prelude, limits, perms, dump, now, timeout, _depth + 1)
+                mid = run_units(units[culprit:culprit + 1], prelude, limits, perms, dump, now, timeout, _depth + 1)
+                rest = run_units(units[culprit + 1:], prelude, limits, perms, dump, now, timeout, _depth + 1)
+                return first + mid + rest
             h = n // 2
             return (run_units(units[:h], prelude, limits, perms, dump, now, timeout, _depth + 1) +
                     run_units(units[h:], prelude, limits, perms, dump, now, timeout, _depth + 1))
